@@ -8,6 +8,7 @@
 mod jsr;
 mod ops;
 mod project;
+mod sched;
 mod world;
 
 use ops::*;
@@ -281,6 +282,7 @@ fn main() {
     Some("replay-core") => cmd_replay_core(&args),
     Some("replay-jsr") => cmd_replay_jsr(&args),
     Some("record-jsr") => cmd_record_jsr(&args),
+    Some("sched") => cmd_sched(&args),
     _ => {
       eprintln!("usage: dgv <replay-core> ...");
       2
@@ -444,6 +446,105 @@ pub fn cmd_record_jsr(args: &[String]) -> i32 {
     }
   }
   let res = json!({"cases": worlds.len(), "trace_events": out.len(), "mismatches": problems});
+  std::fs::write(&result_path, serde_json::to_string(&res).unwrap()).unwrap();
+  0
+}
+
+/// sched: C04 observations.
+///   --cases <ndjson>  TLC-generated (world, kind, schedule, graph) cases: replay the exact schedule through gated
+///                     loads, compare the projection with the model's graph, and record the observation together
+///                     with the observation of the immediate schedule
+///   --n/--seed        seeded random registry worlds: immediate schedule, K random schedules, R repetitions
+/// every run becomes one `obs` trace event (world id, run label, hash of the observation)
+pub fn cmd_sched(args: &[String]) -> i32 {
+  use rand::Rng;
+  use rand::SeedableRng;
+  use sha2::Digest;
+  let trace_path = arg(args, "--trace").expect("--trace");
+  let result_path = arg(args, "--result").expect("--result");
+  let k: usize = arg(args, "--schedules").map(|s| s.parse().unwrap()).unwrap_or(6);
+  let reps: usize = arg(args, "--repeat").map(|s| s.parse().unwrap()).unwrap_or(4);
+  let seed: u64 = arg(args, "--seed").map(|s| s.parse().unwrap()).unwrap_or(1);
+  let n: usize = arg(args, "--n").map(|s| s.parse().unwrap()).unwrap_or(100);
+  let mut out: Vec<Value> = vec![];
+  let mut problems: Vec<Value> = vec![];
+  let mut runs = 0usize;
+  let hash = |v: &Value| -> String {
+    let mut h = sha2::Sha256::new();
+    h.update(serde_json::to_vec(v).unwrap());
+    format!("{:x}", h.finalize())[..16].to_string()
+  };
+  let mut observe = |wid: String, world: &World, kind: &str, label: String, pick: Option<&mut dyn FnMut(usize) -> usize>,
+                     out: &mut Vec<Value>, problems: &mut Vec<Value>| -> Option<(Value, Vec<usize>)> {
+    let r = std::panic::catch_unwind(std::panic::AssertUnwindSafe(|| jsr::build_full_sched(world, kind_of(kind), &world.roots, pick)));
+    match r {
+      Err(e) => {
+        problems.push(json!({"world": wid, "what": "panic", "msg": panic_msg(e), "run": label, "prop": ["C03", "C04"]}));
+        None
+      }
+      Ok(Err(msg)) => {
+        problems.push(json!({"world": wid, "what": "stuck", "msg": msg, "run": label, "prop": ["C03", "C04"]}));
+        None
+      }
+      Ok(Ok((fb, picks))) => {
+        let obs = jsr::observation(world, &fb);
+        out.push(json!({"ev": "obs", "world": wid, "run": label, "picks": picks, "hash": hash(&obs),
+                        "pending": !pending_specifiers(&fb.graph).is_empty()}));
+        Some((graph_json(world, &fb.graph), picks))
+      }
+    }
+  };
+  if let Some(cases) = arg(args, "--cases") {
+    for (i, l) in std::io::BufReader::new(std::fs::File::open(cases).expect("cases")).lines().enumerate() {
+      let l = l.unwrap();
+      if l.trim().is_empty() { continue; }
+      let case: Value = serde_json::from_str(&l).unwrap();
+      let world: World = serde_json::from_value(case["w"].clone()).expect("world");
+      let kind = case["kind"].as_str().unwrap_or("all").to_string();
+      let wid = format!("case{i}");
+      let schedule: Vec<usize> = case["schedule"].as_array().map(|a| a.iter().map(|x| x.as_u64().unwrap() as usize).collect()).unwrap_or_default();
+      out.push(json!({"ev": "world", "world": wid, "source": "tlc", "w": case["w"]}));
+      observe(wid.clone(), &world, &kind, "immediate".into(), None, &mut out, &mut problems);
+      let mut pos = 0usize;
+      let sch = schedule.clone();
+      let mut pick = move |n: usize| -> usize { let v = sch.get(pos).copied().unwrap_or(0); pos += 1; v.min(n - 1) };
+      let r = observe(wid.clone(), &world, &kind, "tlc-schedule".into(), Some(&mut pick), &mut out, &mut problems);
+      runs += 2;
+      if let Some((g, picks)) = r {
+        let expected = norm_graph(&case["graph"]);
+        if let Some((path, e, o)) = first_diff("g", &strip(&expected, &["sch", "ctx"]), &strip(&g, &["sch", "ctx"])) {
+          problems.push(json!({"world": wid, "what": "graph-under-schedule", "path": path, "expected": e, "observed": o, "schedule": schedule, "prop": ["C04"]}));
+        }
+        if picks != schedule {
+          out.push(json!({"ev": "note", "world": wid, "what": "schedule-drift", "model": schedule, "real": picks}));
+        }
+      }
+    }
+  } else {
+    let mut rng = rand::rngs::StdRng::seed_from_u64(seed);
+    for i in 0..n {
+      let world = jsr::gen_world(&mut rng, args.iter().any(|a| a == "--faults"));
+      let wid = format!("rw{i}");
+      out.push(json!({"ev": "world", "world": wid, "source": "random", "w": serde_json::to_value(&world).unwrap()}));
+      observe(wid.clone(), &world, "all", "immediate".into(), None, &mut out, &mut problems);
+      for r in 0..reps {
+        observe(wid.clone(), &world, "all", format!("repeat{r}"), None, &mut out, &mut problems);
+      }
+      for s in 0..k {
+        let mut srng = rand::rngs::StdRng::seed_from_u64(seed.wrapping_mul(1000003).wrapping_add((i * 97 + s) as u64));
+        // schedule families: reverse order, in order, random
+        let mode = s % 3;
+        let mut pick = move |n: usize| -> usize { match mode { 0 => n - 1, 1 => 0, _ => srng.gen_range(0..n) } };
+        observe(wid.clone(), &world, "all", format!("schedule{s}"), Some(&mut pick), &mut out, &mut problems);
+      }
+      runs += 1 + reps + k;
+    }
+  }
+  let mut f = std::io::BufWriter::new(std::fs::File::create(&trace_path).unwrap());
+  for e in &out {
+    writeln!(f, "{}", e).unwrap();
+  }
+  let res = json!({"runs": runs, "trace_events": out.len(), "mismatches": problems});
   std::fs::write(&result_path, serde_json::to_string(&res).unwrap()).unwrap();
   0
 }
